@@ -487,6 +487,52 @@ pub mod fsync_watch {
     use std::sync::Mutex;
 
     static SYNCED: Mutex<Option<HashMap<String, u64>>> = Mutex::new(None);
+    /// directories in which the next fsync fails once with EIO
+    static FAIL_NEXT: Mutex<Vec<String>> = Mutex::new(Vec::new());
+
+    unsafe extern "C" {
+        fn __errno_location() -> *mut i32;
+    }
+
+    /// the next fsync / fdatasync of a file under `dir` fails once with EIO
+    pub fn fail_next(dir: &std::path::Path) {
+        let d = format!("{}/", dir.to_string_lossy());
+        let mut g = FAIL_NEXT.lock().unwrap();
+        if !g.contains(&d) {
+            g.push(d);
+        }
+    }
+
+    /// is a failure armed for `dir` (not consumed yet)?
+    pub fn armed(dir: &std::path::Path) -> bool {
+        let d = format!("{}/", dir.to_string_lossy());
+        FAIL_NEXT.lock().unwrap().contains(&d)
+    }
+
+    pub fn disarm(dir: &std::path::Path) {
+        let d = format!("{}/", dir.to_string_lossy());
+        FAIL_NEXT.lock().unwrap().retain(|x| x != &d);
+    }
+
+    fn must_fail(fd: i32) -> bool {
+        let Ok(path) = std::fs::read_link(format!("/proc/self/fd/{fd}")) else { return false };
+        let p = path.to_string_lossy().to_string();
+        let mut g = match FAIL_NEXT.lock() {
+            Ok(g) => g,
+            Err(_) => return false,
+        };
+        if g.is_empty() {
+            return false;
+        }
+        match g.iter().position(|d| p.starts_with(d.as_str())) {
+            Some(i) => {
+                g.remove(i);
+                unsafe { *__errno_location() = 5 };
+                true
+            }
+            None => false,
+        }
+    }
 
     unsafe extern "C" {
         fn dlsym(handle: *mut std::ffi::c_void, symbol: *const std::ffi::c_char) -> *mut std::ffi::c_void;
@@ -515,6 +561,9 @@ pub mod fsync_watch {
 
     #[unsafe(no_mangle)]
     pub extern "C" fn fsync(fd: i32) -> i32 {
+        if must_fail(fd) {
+            return -1;
+        }
         let r = pass_on(b"fsync\0", fd);
         if r == 0 {
             record(fd);
@@ -524,6 +573,9 @@ pub mod fsync_watch {
 
     #[unsafe(no_mangle)]
     pub extern "C" fn fdatasync(fd: i32) -> i32 {
+        if must_fail(fd) {
+            return -1;
+        }
         let r = pass_on(b"fdatasync\0", fd);
         if r == 0 {
             record(fd);
